@@ -850,3 +850,68 @@ def c16(chk):
     chk.canary_cases(r["cases_file"], flip_sdjwt_case)
     chk.assumptions += ["sd-jwt-payload 0.2 (SdObjectEncoder/Decoder, SHA-256) trusted for disclosure hashing",
                         "the 'no latest bound' rows compare with the current time; iat is chosen decades away from any run"]
+
+
+# ------------------------------------------------------------------------------------------------
+# C05 — no panics on externally supplied data (exploration)
+# ------------------------------------------------------------------------------------------------
+
+# other specifications reused as input generators: (replay driver, module, cfg stem)
+C05_GENERATORS = [("C10", "MCDidSyntax", "DidSyntax"), ("C13", "MCTimestamp", "Timestamp"), ("C17", "MCIotaDid", "IotaDid"),
+                  ("C01", "JwsVerify", "JwsVerify"), ("C11", "JoseHeaderPolicy", "JoseHeaderPolicy"),
+                  ("C16", "SdJwtValidation", "SdJwtValidation"), ("C12", "StatusList", "StatusList"),
+                  ("C18", "Jwk", "Jwk"), ("C14", "StateMetadata", "StateMetadata")]
+
+
+@plan("C05")
+def c05(chk):
+    chk.level = "exploration"
+    chk.rule = ("Inputs are generated from the specifications: (a) Mutate.tla — TLC enumerates the mutation operators (delete, "
+                "duplicate, replace, insert, truncate, swap, bit flip at first/last/every/delimiter positions with symbols of an "
+                "adversarial alphabet incl. quotes, backslashes, invalid UTF-8, control and non-ASCII characters; JSON-level "
+                "replace-value / remove / duplicate member / wrap / deep nesting); the harness applies each operator to every one "
+                "of 42 valid seeds of 16 entry-point families (DID/DID-URL/IOTA DID/did:jwk/network names, timestamps, base "
+                "encodings and integrity metadata, JWK/JWK sets, JWS headers, verification methods, services, Core/Iota documents, "
+                "credentials/presentations/status entries/status-list credentials/option structs, encoded status lists, JWS in "
+                "three serializations, packed state metadata and method digests, SD-JWT with KB-JWT and SD-JWT VC), expanded over "
+                "positions and concrete characters, and runs every parser, decoder, validator and accessor of the family under "
+                "catch_unwind with overflow checks on and a hang watchdog; (b) the case files TLC generates for the other "
+                "properties are replayed and only their panic/hang verdicts are read. A case is distinct+non-trivial per (entry "
+                "family, seed, mutation operator).")
+    wd = vlib.workdir("C05")
+    os.environ["VERIF_TIER"] = chk.tier
+    os.environ["VERIF_BREADCRUMB"] = os.path.join(wd, "breadcrumb")
+    r = chk.mc("Mutate", "Mutate_%s.cfg" % chk.tier, workers=2, timeout=300, heap="2g")
+    try:
+        chk.replay(r["cases_file"], timeout=q(chk, 1500, 10000))
+    except ToolError as e:
+        # the harness process died: a stack overflow / abort in code under test is a violation, with the breadcrumbs as context
+        crumbs = []
+        for f in sorted(os.listdir(wd)):
+            if f.startswith("breadcrumb."):
+                try:
+                    crumbs.append(json.load(open(os.path.join(wd, f))))
+                except Exception:
+                    pass
+        chk.violations.append(dict(key="no_panic/process_died", detail=dict(kind="abort", message=str(e)[-2000:], in_flight=crumbs[:16])))
+        return
+    chk.canary_cases(r["cases_file"], lambda rows: [{"level": "canary"}], prop_driver="C05")
+    # specifications of the other properties as generators
+    gens = C05_GENERATORS if chk.tier == "thorough" else C05_GENERATORS[:6]
+    extra = {}
+    for drv, module, stem in gens:
+        g = vlib.tlc_model_check("C05", module, "%s_quick.cfg" % stem, workers=4, timeout=900, heap="4g")
+        rep_path = os.path.join(wd, "gen_%s.json" % drv)
+        vlib.vh(["replay", drv, g["cases_file"], rep_path], timeout=3000)
+        rep = json.load(open(rep_path))
+        bad = [m for m in rep["mismatches"] if "panic" in m["key"] or "hang" in m["key"]]
+        extra[drv] = dict(cases=g["cases"], evaluations=rep["evaluations"], panics=len(bad))
+        chk.evaluations += rep["evaluations"]
+        for m in bad:
+            chk.violations.append(dict(key="no_panic/via_%s/%s" % (drv, m["key"]), detail=m))
+        log("[C05] generator %s: %d cases, %d evaluations, %d panics/hangs" % (drv, g["cases"], rep["evaluations"], len(bad)))
+    chk.extra["spec_generators"] = extra
+    chk.states = max(chk.states, 1)
+    chk.assumptions += ["exploration, not proof: inputs are those reachable by one mutation of a valid seed (thorough: every "
+                        "position) plus the tables of the other specifications",
+                        "the harness is built with overflow-checks = true; stack exhaustion kills the process and is reported"]
